@@ -896,6 +896,16 @@ func (env *SpecEnv) callExpr(c *ast.CallExpr) (*Val, error) {
 			return boolVal(sx(">", sx("sarr", a.T), env.vc().heap(env.old, "$alloc", SInt))), nil
 		}
 		return boolVal(sx(">", a.T, env.vc().heap(env.old, "$alloc", SInt))), nil
+	case "arrayof":
+		// identity of the backing array of a slice (two slices alias iff they have the same array id)
+		a, err := arg(0)
+		if err != nil {
+			return nil, err
+		}
+		if a.S != SSlice {
+			return nil, fmt.Errorf("arrayof of %s", a.S)
+		}
+		return mathInt(sx("sarr", a.T)), nil
 	case "allocmark":
 		// the allocation high-water mark of the current state: references are handed out in
 		// increasing order, so `x > m` for a mark m taken earlier says x was allocated after that point
